@@ -8,6 +8,7 @@
    The two struct types of the universe (the harness declares the same Go types):
        Inner { A float64; B string; C []string; Él string }
        Outer { A Inner; B *Inner; C []Inner; D []*Inner; E []float64; F []string; G bool; H string }
+       Emb { Inner; Z float64 }    EmbP { *Inner; Z float64 }        (embedding: promoted fields)
    A field name in an expression is matched after upper-casing its first letter, so the JSON form of a
    struct has the lower-cased names as keys:  J(struct) = object, J(nil pointer) = null, J(pointer) = J(pointee),
    J(typed slice) = array.  The property: for navigational expressions e,  Search(e, g)  normalised through
@@ -41,6 +42,10 @@ fldEl == <<201, 108>>        \* a field whose name starts with a non-ASCII lette
 Inner(a, b, c) == GStruct("Inner", << <<fldA, a>>, <<fldB, b>>, <<fldC, GSlice("string", c)>>, <<fldEl, b>> >>)
 Outer(a, b, c, d, e, f, gg, h) == GStruct("Outer", << <<fldA, a>>, <<fldB, b>>, <<fldC, GSlice("Inner", c)>>, <<fldD, GSlice("*Inner", d)>>,
                                                       <<fldE, GSlice("float64", e)>>, <<fldF, GSlice("string", f)>>, <<fldG, Bool(gg)>>, <<fldH, h>> >>)
+(* struct embedding: Emb { Inner; Z float64 } and EmbP { *Inner; Z float64 } -- the fields of the embedded struct are promoted, so the
+   struct (like its encoding/json form) has the fields A, B, C, Él and Z *)
+fldZ == <<90>>
+Emb(t, a, b, c, z) == GStruct(t, << <<fldA, a>>, <<fldB, b>>, <<fldC, GSlice("string", c)>>, <<fldEl, b>>, <<fldZ, z>> >>)
 In1 == Inner(I(1), S(<<120>>), <<S(cA), S(cB)>>)
 In2 == Inner(I(2), S(<<121>>), <<>>)
 In3 == Inner(Half, S(cEmpty), <<S(cAB)>>)
@@ -51,6 +56,8 @@ GoDocs == <<
   GPtr("Outer", Outer(In1, GPtr("Inner", In1), <<In3, In1>>, <<GPtr("Inner", In2), GPtr("Inner", In2)>>, <<I(2), I(2)>>, <<S(cA)>>, FALSE, S(cA))),
   GSlice("Inner", <<In1, In2>>), GSlice("*Inner", <<GPtr("Inner", In1), GNil("Inner")>>), GSlice("float64", <<I(1), I(2), I(3)>>), GSlice("string", <<S(cA)>>),
   GNil("Outer"), In1,
+  Emb("Emb", I(1), S(<<120>>), <<S(cA)>>, I(7)), GPtr("EmbP", Emb("EmbP", I(2), S(cEmpty), <<>>, I(8))),
+  GSlice("Emb", <<Emb("Emb", I(1), S(cA), <<S(cB)>>, I(1)), Emb("Emb", Half, S(cB), <<>>, I(2))>>),
   GSlice("Outer", <<Outer(In1, GNil("Inner"), <<In2>>, <<GPtr("Inner", In3), GNil("Inner")>>, <<I(1)>>, <<>>, TRUE, S(cA)),
                     Outer(In2, GPtr("Inner", In1), <<>>, <<GNil("Inner"), GPtr("Inner", In1), GNil("Inner")>>, <<>>, <<S(cB)>>, FALSE, S(cB))>>) >>
 (* J is total on the universe and yields JSON *)
